@@ -51,6 +51,8 @@ def _case(draw, max_ops):
                 op['sizes'] = draw(st.lists(st.integers(1, 4), min_size=accum, max_size=accum))
             if not in_hook and draw(st.integers(0, 5)) == 0:
                 op['reset_after'] = draw(st.integers(1, accum))
+            if draw(st.integers(0, 4)) == 0:
+                op['extra_fwd'] = draw(st.integers(1, 3))     # only honoured on steps that are not factor-update steps
             if bystander:
                 # micro-batch indices after which the bystander model runs one micro-batch of its own
                 op['by'] = sorted(draw(st.sets(st.integers(0, accum - 1), max_size=accum)))
@@ -74,7 +76,7 @@ class C05(Prop):
             'each of the six hyper-parameters a constant or a lookup table t[step % len] incl. interval pairs that are not multiples, optionally a '
             'LambdaParamScheduler over up to 3 constant parameters with its own factor tables) and a program of 1-20 (quick) / 1-30 (thorough) '
             'operations {train iteration (optionally unequal micro-batch sizes, optionally a mid-iteration reset_batch in no-hook mode followed by '
-            'a full set of micro-batches), eval-mode pass, reset_batch, scheduler.step(), checkpoint round trip into a fresh preconditioner, '
+            'a full set of micro-batches; optionally 1-3 extra forward-only train-mode passes when the step is not a factor-update step), eval-mode pass, reset_batch, scheduler.step(), checkpoint round trip into a fresh preconditioner, '
             'snapshot = keep state_dict() alive in memory, rollback = load that kept dict into the live preconditioner and restore the weights}; '
             'damping / decay / clip / lr may also be callables reading live state changed between iterations; in a quarter of the cases a '
             'second, independent model of the same architecture with its own preconditioner lives in the same process and runs its own '
@@ -117,7 +119,7 @@ class C05(Prop):
             k = op['op']
             if k == 'train':
                 hp_seen.append(tuple(ls.ref.get(x) for x in ('factor_update_steps', 'inv_update_steps', 'damping', 'factor_decay', 'kl_clip', 'lr')))
-                bad = ls.train_iter(op['seed'], op.get('sizes'), op.get('reset_after'), by=op.get('by', ()))
+                bad = ls.train_iter(op['seed'], op.get('sizes'), op.get('reset_after'), by=op.get('by', ()), extra_fwd=op.get('extra_fwd', 0))
             elif k == 'eval':
                 bad = ls.eval_pass(op['seed'])
             elif k == 'reset_batch':
